@@ -306,8 +306,13 @@ func (s *c11Hdr) modelWire(p *c11Pool, isJWE bool) vf.Wire {
 }
 
 // c11ApplySetters runs the model's SetCritical / SetBase64 in the order the harness called goat's.
-func c11ApplySetters(d *vf.Driver, s *c11Hdr, w vf.Wire) (vf.Wire, error) {
-	var err error
+func c11ApplySetters(d *vf.Driver, s *c11Hdr, w0 vf.Wire) (w vf.Wire, err error) {
+	w = w0
+	// buildJWS puts the unregistered members into Raw AFTER the setter calls (a setter deletes its own
+	// name from Raw): the model setters run on the header without them
+	raw, _ := w.Get("raw")
+	w = c11WireSet(w, "raw", vf.Wire{Kind: vf.KObj})
+	defer func() { w = c11WireSet(w, "raw", raw) }()
 	b64 := func() {
 		if s.NoB64 && err == nil {
 			w, err = d.Call("c11.jws.setb64", []vf.Wire{w, vf.Bool(false)}, StdOracle)
@@ -322,7 +327,7 @@ func c11ApplySetters(d *vf.Driver, s *c11Hdr, w vf.Wire) (vf.Wire, error) {
 	if !s.B64First {
 		b64()
 	}
-	return w, err
+	return
 }
 
 // names: the member names the header will be emitted with (registered names per the setters
